@@ -277,6 +277,23 @@ def write_programs(tier, seed):
         with open(os.path.join(d, mod + '.py'), 'w') as f:
             f.write(g.wrap('P', body))
         progs.append(('directed: %s' % label, mod, 'clock', {'ins': g.ins, 'outs': g.outs, 'states': g.states, 'k': 3}))
+    # state values with bit 31 set (inside the statement's "at most 32 bits"): only operations whose Verilog meaning does not
+    # depend on the sign of a 32-bit integer variable (shifts, bitwise operators, equality); comparisons and divisions of such
+    # values are outside the claim (see DESIGN.md)
+    for j, (label, body) in enumerate([
+            ('32-bit state shifted right', ['        self.st = self.st >> 1', '        self.r.prepare(self.st ^ self.a.get())']),
+            ('32-bit state: equality, xor, shifts by a port',
+             ['        if self.st == self.cnt:', '            self.s.prepare(1)', '        else:', '            self.s.prepare(0)',
+              '        self.st = self.st ^ (self.b.get() << 24)', '        self.cnt = self.cnt >> (self.c.get() + 1)']),
+            ('32-bit state: shift in from the top', ['        self.st = (self.st >> 4) | (self.b.get() << 24)', '        self.r.prepare(self.st >> 28)'])]):
+        rnd = random.Random('w/%d' % j)
+        g = Gen(rnd, 'clock')
+        g.ins, g.outs = [('a', 4), ('b', 8), ('c', 1)], [('r', 8), ('s', 1)]
+        g.states = [('st', 1), ('cnt', 2)]
+        mod = 'w%03d' % j
+        with open(os.path.join(d, mod + '.py'), 'w') as f:
+            f.write(g.wrap('P', body))
+        progs.append(('directed: %s' % label, mod, 'clock', {'ins': g.ins, 'outs': g.outs, 'states': g.states, 'k': 3, 'wide': True}))
     for j, (label, body) in enumerate(UNSUPPORTED.items()):
         rnd = random.Random('u/%d' % j)
         g = Gen(rnd, 'clock')
@@ -404,7 +421,7 @@ def behav_task(p, cfg, rec):
         w.put(x)
         V[n] = v
         allv['in:' + n] = v
-        if w.getWidth() >= 32:
+        if w.getWidth() >= 32 and not cfg.get('wide'):
             in_dom.append(z3.ULT(v, z3.BitVecVal(1 << 31, v.size())))      # an input value is a Python value too
     vstate = {}
     for vn, (k, x) in corr.items():
@@ -417,6 +434,10 @@ def behav_task(p, cfg, rec):
             sym, v = core.fresh_range('s_' + vn, lo, hi)
             setattr(obj, vn, sym)
             vstate[vn] = z3.SignExt(32 - v.size(), v) if v.size() < 32 else v
+        elif cfg.get('wide'):
+            sym, v = core.fresh('s_' + vn, 32)              # the full 32 bits of the statement's domain (see `wide` below)
+            setattr(obj, vn, sym)
+            vstate[vn] = v
         else:
             sym, v = core.fresh('s_' + vn, 31)              # 0 <= value < 2**31 (Verilog integer is signed 32 bit)
             setattr(obj, vn, sym)
@@ -429,9 +450,11 @@ def behav_task(p, cfg, rec):
     # attributes that are not Verilog state (constants such as self.k) stay concrete
     dom = []
 
+    top = (1 << 32) if cfg.get('wide') else (1 << 31)
+
     def listen(r):
         pc = ctx.full_pc()
-        c = z3.And(core.as_z3_bool(r >= 0), core.as_z3_bool(r < (1 << 31)))
+        c = z3.And(core.as_z3_bool(r >= 0), core.as_z3_bool(r < top))
         dom.append(z3.Implies(z3.And(*pc), c) if pc else c)
     ctx.listeners.append(listen)
     ctx.keep_symbolic = True
@@ -472,7 +495,7 @@ def behav_task(p, cfg, rec):
     # stored values stay below 2**31
     for vn, (k, x) in corr.items():
         if k == 'attr':
-            c = post[vn] < (1 << 31)
+            c = post[vn] < top
             dom.append(core.as_z3_bool(c) if not isinstance(c, bool) else z3.BoolVal(c))
             c = post[vn] >= 0
             dom.append(core.as_z3_bool(c) if not isinstance(c, bool) else z3.BoolVal(c))
@@ -558,7 +581,7 @@ def tasks_for(tier, seed):
             m = importlib.import_module(mod)
             wires = [s.wire(n, w) for n, w in meta['ins'] + meta['outs']]
             return m.P(s, 'dut', *wires, meta['k'])
-        t.append((name, behav_task, {'mk': mk, 'refusal': meta.get('refusal', False)}))
+        t.append((name, behav_task, {'mk': mk, 'refusal': meta.get('refusal', False), 'wide': meta.get('wide', False)}))
     return t, d
 
 
